@@ -365,6 +365,7 @@ def normalize(raw):
                     flat(v)
         for b in raw["bodies"]:
             flat(b["blocks"])
+        _flatten_aggregates(raw, gmap)
         for a_ in raw["adts"]:
             for (path, f), (sty, m, tys) in gmap.items():
                 if a_["path"] == path and a_["variants"]:
@@ -529,3 +530,53 @@ def reflatten(raw):
     for b in raw["bodies"]:
         flat(b["blocks"])
     return n
+
+
+def _flatten_aggregates(raw, gmap):
+    """`P { group: <S value>, .. }` -> `P { f1: <S value>.s1, f2: <S value>.s2, .. }`: when the S value is a literal built
+    just before (single definition of the operand's local by an S aggregate) its operands are used, otherwise the
+    components are read from the place the S value is copied from"""
+    import copy
+    for b in raw["bodies"]:
+        # single whole-local definitions by an aggregate
+        defs = {}
+        for blk in b["blocks"]:
+            for st in blk["stmts"]:
+                if st.get("s") == "assign" and not st["pl"]["p"]:
+                    defs.setdefault(st["pl"]["l"], []).append(st["rv"])
+            t = blk["term"]
+            if t.get("t") == "call" and not t["dest"]["p"]:
+                defs.setdefault(t["dest"]["l"], []).append({"rv": "call"})
+        for blk in b["blocks"]:
+            for st in blk["stmts"]:
+                rv = st.get("rv") if st.get("s") == "assign" else None
+                if not rv or rv.get("rv") != "agg" or rv.get("ak") != "adt":
+                    continue
+                for (path, f), (sty, m, tys) in gmap.items():
+                    if rv.get("adt") != path or f not in (rv.get("fields") or []):
+                        continue
+                    i = rv["fields"].index(f)
+                    op = rv["ops"][i]
+                    new_fields, new_ops = [], []
+                    src = None
+                    if op.get("k") in ("move", "copy") and not op["pl"]["p"]:
+                        ds = defs.get(op["pl"]["l"], [])
+                        if len(ds) == 1 and ds[0].get("rv") == "agg" and ds[0].get("adt") == sty:
+                            src = ds[0]
+                        elif len(ds) == 1 and ds[0].get("rv") == "use" and ds[0]["op"].get("k") in ("move", "copy"):
+                            op = ds[0]["op"]      # a temporary holding a copy of the group: read the components at the source
+                    for sn, gn in m.items():
+                        new_fields.append(gn)
+                        if src is not None and sn in (src.get("fields") or []):
+                            new_ops.append(copy.deepcopy(src["ops"][src["fields"].index(sn)]))
+                        elif op.get("k") in ("move", "copy"):
+                            pl = copy.deepcopy(op["pl"])
+                            pl["p"] = list(pl["p"]) + [{"f": None, "ty": tys[gn], "name": sn, "adt": sty}]
+                            pl["ty"] = tys[gn]
+                            new_ops.append({"k": "copy", "pl": pl})
+                        else:
+                            new_ops.append({"k": "const", "ty": tys[gn]})
+                    rv["fields"][i:i + 1] = new_fields
+                    rv["ops"][i:i + 1] = new_ops
+    # places built above (`x.group.sub`) are flattened like every other place
+    reflatten(raw)
